@@ -201,6 +201,9 @@ def n_uget(ex, callee, args, m):
     if not idx.t.is_const:
         raise ExecError("symbolic index into the series")
     i = idx.t.val
+    cur = getattr(ex, "cur_pos", None)
+    if cur is not None and i > cur:
+        ex.oblige(TRUE, f"kernel reads element {i} while computing position {cur} (look-ahead)", callee)
     if not (0 <= i < len(series)):
         return _DIVERGE
     return series[i]
